@@ -86,11 +86,11 @@ Print Assumptions C14_orig_refuted.
 
 (* Each repair is needed, and two tempting alternatives deadlock. *)
 Theorem C14_repairs_needed :
-  stuck (V false true true true false false) 1 1 w_stop_while_paused /\
-  stuck (V true false false false false false) 1 1 w_unmatched_resume /\
-  stuck (V true true true true true false) 1 1 w_unsubscribe_race /\
-  stuck (V true false false true false false) 2 3 w_two_resumes /\
-  stuck (V true true true true true true) 1 1 w_unsub_mutex.
+  stuck (V false true true true false false false) 1 1 w_stop_while_paused /\
+  stuck (V true false false false false false false) 1 1 w_unmatched_resume /\
+  stuck (V true true true true true false false) 1 1 w_unsubscribe_race /\
+  stuck (V true false false true false false false) 2 3 w_two_resumes /\
+  stuck (V true true true true true true false) 1 1 w_unsub_mutex.
 Proof. exact repairs_needed_lemma. Qed.
 Print Assumptions C14_repairs_needed.
 
@@ -120,3 +120,16 @@ Theorem C14_pause_mutex_needed :
              quiescent v_no_pause_mutex t /\ ct t 0 = CIdle /\ ct t 1 = CIdle /\ paused t = false).
 Proof. exact pause_without_mutex_refuted. Qed.
 Print Assumptions C14_pause_mutex_needed.
+
+(* Resume must collect the acknowledgements concurrently (one receiver per subscriber).  With
+   workers that feed each other (worker 0 passes its items to worker 1, as the stages do) a Resume
+   that receives sequentially inside Range and meets the upstream worker first - blocked in its
+   hand-over, token queued, while the downstream worker has acknowledged - never returns and all
+   workers stay parked; the real (concurrent) code finishes the same schedule.  (The theorems
+   above are about workers that do not feed each other; dependent workers are covered by this
+   witness and by the driver's linked-worker cases.) *)
+Theorem C14_sequential_resume_refuted :
+  stuck_l v_seq_resume 2 1 link01 w_seq_resume /\
+  seq_resume_fixed_ok = true.
+Proof. exact sequential_resume_refuted. Qed.
+Print Assumptions C14_sequential_resume_refuted.
